@@ -435,8 +435,12 @@ class AsyncPettingZooVecEnv(PettingZooVecEnv):
                 logger.warn(
                     f"Calling `close` while waiting for a pending call to `{self._state.value}` to complete."
                 )
-                function = getattr(self, f"{self._state.value}_wait")
-                function(timeout)
+                if all(process.is_alive() for process in self.processes):
+                    function = getattr(self, f"{self._state.value}_wait")
+                    function(timeout)
+                else:
+                    # A worker died: the pending call can never complete
+                    terminate = True
         except mp.TimeoutError:
             terminate = True
         except Exception:
